@@ -58,6 +58,14 @@ def enumerate_cases(tier, scope):
                     if not any(ev[0] == 'cancel_task' for ev in sched) or not any(ev[0] in ('kill', 'cancel') for ev in sched):
                         continue
                     yield {'program': cat[name], 'schedule': sched, 'tag': f'tasks:{name}'}
+        # the caller cancels the future that kill() returned (gives up waiting): later kills must still work
+        alpha = [['pause', 'p'], ['play'], ['kill', 'kt'], ['kill', 'k2'], ['withdraw'], ['resume', 1]]
+        for name in ('async2', 'wait1', 'gated', 'waitwait'):
+            for k in (2, 3):
+                for sched in gen.schedules(alpha, k, 2):
+                    if not any(ev[0] == 'withdraw' for ev in sched) or sched[[e[0] for e in sched].index('withdraw') - 1][0] not in ('kill', 'tick'):
+                        continue
+                    yield {'program': cat[name], 'schedule': [['tick', 1]] + sched, 'tag': f'withdraw:{name}'}
     elif scope == 'k4w':
         for name in ('wait1', 'waitwait', 'async2'):
             for sched in gen.schedules(ALPHABET, 4, 1):
@@ -101,7 +109,7 @@ def enumerate_cases(tier, scope):
 @st.composite
 def _cases(draw, tier):
     prog = draw(gen.programs(max_steps=4 if tier == 'quick' else 6, self_calls=('pause', 'play', 'kill', 'cancel'), soon=True))
-    sched = draw(gen.control_schedules(['pause', 'play', 'kill', 'kill', 'resume', 'cancel', 'open', 'reload', 'cancel_task', 'restep'], max_events=4, max_gap=4))
+    sched = draw(gen.control_schedules(['pause', 'play', 'kill', 'kill', 'resume', 'cancel', 'open', 'reload', 'cancel_task', 'restep', 'withdraw'], max_events=4, max_gap=4))
     plans = draw(gen.listener_plans(['kill', 'pause', 'play'])) if draw(st.booleans()) else []
     return {'program': prog, 'schedule': sched, 'listener': plans}
 
@@ -130,6 +138,10 @@ def execute(case):
         live_kills = [r for r in kill_recs if r['live_before']]
         # a cancel() that returned False (future already done) is not a request
         live_kills = [r for r in live_kills if not (r['what'] == 'cancel' and r['ret'] == 'False')]
+        # a kill whose returned future the caller cancelled is withdrawn: it makes no claim, but a later one must work
+        if any(r.get('withdrawn') for r in live_kills):
+            classes.append('kill-withdrawn')
+        live_kills = [r for r in live_kills if not r.get('withdrawn')]
 
         def v(clause, detail):
             viol.append({'clause': clause, 'detail': detail})
